@@ -1,0 +1,45 @@
+//go:build verif
+
+package statebackend
+
+// Contracts for gocv (contract-based deductive verification, /verif).
+
+//@ opaque type github.com/NethermindEth/juno/core/felt.Felt
+
+// ---- assumed contracts on what is read -------------------------------------------------
+//@ ghost func errIs(err error, target error) bool
+//@ extern func errors.Is
+//@   ensures result == errIs(err, target)
+//@   ensures err == target && err != nil ==> result
+//@   ensures err == nil && target != nil ==> !result
+//@
+//@ extern func github.com/NethermindEth/juno/core/felt.(*Felt).Equal
+//@   requires z != nil && x != nil
+//@   ensures result <==> (*z == *x)
+//@
+//@ extern func github.com/NethermindEth/juno/core.CheckBlockVersion
+//@   ensures result != ErrParentDoesNotMatchHead
+
+// The head the next block must extend, as read from the store (ghost record of the answer).
+//@ ghost var headExists bool
+//@ ghost var headNumber uint64
+//@ ghost var headHash felt.Felt
+//@ ghost var headReadFailed bool
+//@ func headNumberAndHash
+//@   trusted
+//@   assigns headExists, headNumber, headHash, headReadFailed
+//@   ensures result2 == nil ==> headExists && !headReadFailed && result0 == headNumber && result1 != nil && *result1 == headHash
+//@   ensures result2 != nil && errIs(result2, db.ErrKeyNotFound) ==> !headExists && !headReadFailed
+//@   ensures result2 != nil && !errIs(result2, db.ErrKeyNotFound) ==> headReadFailed
+//@   ensures result2 != ErrParentDoesNotMatchHead
+
+// A block is accepted as successor only if it continues the head: number and parent hash.
+//@ func verifyBlockSuccession
+//@   props C02, C06
+//@   arith int
+//@   requires block != nil && block.Header != nil && block.ParentHash != nil
+//@   assigns headExists, headNumber, headHash, headReadFailed
+//@   ensures linked: result == nil && headExists && headNumber < (1<<64) - 1 ==> block.Number == headNumber + 1 && *block.ParentHash == headHash
+//@   ensures genesis: result == nil && !headExists ==> block.Number == 0 && *block.ParentHash == felt.Zero
+//@   ensures readerr: headReadFailed ==> result != nil
+//@   ensures parent_sentinel: result == ErrParentDoesNotMatchHead ==> (headExists ==> block.Number == uint64(headNumber + 1) && *block.ParentHash != headHash) && (!headExists ==> block.Number == 0)
